@@ -419,7 +419,7 @@ def main(tier: str, replay: str | None) -> None:
     jobs: list[dict] = []
     small = enum_configs("MC_Discovery_enumA.cfg") + enum_configs("MC_Discovery_enumB.cfg")
     for i, c in enumerate(small):  # every small configuration, loss-free, both ways of meeting the CTL
-        jobs.append({"cfg": c, "losses": [], "start": "named" if i % 2 else "heard", "kind": "small"})
+        jobs.append({"cfg": c, "losses": [], "start": ("named", "heard", "early")[i % 3], "kind": "small"})
     sims = simulate_behaviours(600 if thorough else 24, chk.seed)
     seen = set()
     for m_cfg, lost in sims:
@@ -435,7 +435,7 @@ def main(tier: str, replay: str | None) -> None:
         c = gen_cfg(rng, rng.randint(0, 12), 8)
         ls = gen_losses(rng, c, 1) if i % 2 else []
         jobs.append({"cfg": c, "losses": ls, "kind": "generated", "seed": rng.randint(0, 9),
-                     "start": rng.choice(["named", "heard"])})
+                     "start": rng.choice(["named", "heard", "early"])})
     if thorough:  # long horizons: stability after completion, losses in later rounds
         for i in range(16):
             c = gen_cfg(rng, rng.randint(1, 5), 3)
